@@ -6,7 +6,12 @@
      key_eqb   Python ==/hash on keys (dict membership),
      is_ref    isinstance(key, refs.ForwardRef),
      unwrap    inspection.unwrap,
-     fref      refs.forwardref (one positional argument).
+     fref      refs.forwardref (one positional argument),
+     names     names r k = "the stored reference key r evaluates to the requested key k":
+               ctx._refers_to(r, k), i.e. refs.evaluate(r) is k, False when the evaluation raises
+               (a reference that cannot be resolved names nothing).  The module a reference was
+               written in is part of r: ForwardRef('C', module='defining') and
+               ForwardRef('C', module='importer') are different keys that both name C.
    Nothing is assumed about them here; the laws the theorems need are the record
    key_laws below and appear as an explicit hypothesis of every theorem. *)
 From Coq Require Import List Bool Arith.
@@ -31,6 +36,7 @@ Variables key val : Type.
 Variable key_eqb : key -> key -> bool.
 Variable is_ref : key -> bool.
 Variables unwrap fref : key -> key.
+Variable names : key -> key -> bool.
 
 (* ---------------- the dict ---------------- *)
 (* insertion-ordered association list; at most one entry per ==-class *)
@@ -51,6 +57,15 @@ Fixpoint set (c : st) (k : key) (v : val) : st :=
   | (k', v') :: r => if key_eqb k k' then (k', v) :: r else (k', v') :: set r k v
   end.
 
+(* for other in self: if isinstance(other, refs.ForwardRef) and _refers_to(other, key): ...
+   Iteration over a dict is in insertion order: the FIRST stored reference naming the key.
+   The loop walks every key of the dict (memo keys included; they are never references). *)
+Fixpoint scan (c : st) (k : key) : option key :=
+  match c with
+  | [] => None
+  | (r, _) :: rest => if is_ref r && names r k then Some r else scan rest k
+  end.
+
 (* ---------------- TypeContext.__getitem__ = dict lookup, then __missing__ ----------------
    def __missing__(self, key):
        if isinstance(key, refs.ForwardRef): raise KeyError(key)
@@ -60,8 +75,13 @@ Fixpoint set (c : st) (k : key) (v : val) : st :=
            self[key] = val                   # the memo write
            return val
        ref = refs.forwardref(key)
-       return self[ref]                      # subscription again: may re-enter __missing__
-   The hit through the reference is NOT written back. *)
+       if ref in self:                       # plain dict membership
+           return self[ref]                  # subscription again (a direct hit)
+       for other in self:                    # insertion order
+           if isinstance(other, refs.ForwardRef) and _refers_to(other, key):
+               return self[other]            # subscription again (a direct hit)
+       raise KeyError(ref)
+   Neither hit through a reference (the canonical one, a scanned one) is written back. *)
 Fixpoint getitem (fuel : nat) (c : st) (k : key) : res val * st :=
   match find c k with
   | Some v => (Ok v, c)
@@ -77,7 +97,13 @@ Fixpoint getitem (fuel : nat) (c : st) (k : key) : res val * st :=
           | (Ok v, c1) => (Ok v, set c1 k v)
           | (r, c1) => (r, c1)
           end
-        else getitem f c (fref k)
+        else
+          let r := fref k in
+          if contains c r then getitem f c r
+          else match scan c k with
+               | Some other => getitem f c other
+               | None => (RaiseKey, c)
+               end
     end
   end.
 
@@ -112,12 +138,25 @@ Fixpoint run (fuel : nat) (c : st) (ops : list op) : list (out val) :=
   end.
 
 (* ---------------- the specification ----------------
-   State: the inserted pairs only.  A lookup is a pure function of that state:
-   the key itself; else, unless the key is a forward reference, its unwrapped form,
-   else the forward reference naming it. *)
+   State: the inserted pairs only, in insertion order.  A lookup is a pure function of that
+   state: the key itself; else, unless the key is a forward reference, its unwrapped form,
+   else a forward reference naming it.  WHICH one when several are stored: the reference
+   refs.forwardref builds for the key (through the module that defines it) if that one is
+   stored, otherwise the naming reference that was inserted FIRST. *)
+Fixpoint first_named (S : st) (k : key) : option val :=
+  match S with
+  | [] => None
+  | (r, v) :: rest => if is_ref r && names r k then Some v else first_named rest k
+  end.
+
 Definition spec_lookup (S : st) (k : key) : option val :=
   orelse (find S k)
-         (if is_ref k then None else orelse (find S (unwrap k)) (find S (fref k))).
+         (if is_ref k then None
+          else orelse (find S (unwrap k)) (orelse (find S (fref k)) (first_named S k))).
+
+(* is some stored key a forward reference naming k?  (for the order-free reading of the property) *)
+Definition named_stored (S : st) (k : key) : bool :=
+  existsb (fun p => is_ref (fst p) && names (fst p) k) S.
 
 Definition spec_step (S : st) (o : op) : out val * st :=
   match o with
@@ -169,8 +208,16 @@ Record key_laws : Prop := {
   (* unwrap is idempotent on the keys __missing__ applies it to *)
   kl_unwrap_idem : forall a, is_ref a = false -> key_eqb (unwrap (unwrap a)) (unwrap a) = true;
   (* forwardref builds a ForwardRef *)
-  kl_fref_ref : forall a, is_ref a = false -> is_ref (fref a) = true
+  kl_fref_ref : forall a, is_ref a = false -> is_ref (fref a) = true;
+  (* equal references evaluate alike *)
+  kl_names_compat : forall a b k, key_eqb a b = true -> names a k = names b k
 }.
+
+(* NOT part of key_laws (the refinement does not need it, and refs.forwardref does not satisfy it
+   on every key: forwardref(Final[C]) is ForwardRef('Final', module='typing')): the reference
+   forwardref builds for k is one of the references naming k.  It is a hypothesis, per key, of the
+   order-free characterisation (CtxLemmas.found_iff) and is decided on the live tables. *)
+Definition fref_names (k : key) : Prop := names (fref k) k = true.
 
 End Ctx.
 
